@@ -6,6 +6,7 @@ import glob
 from typing import Optional
 
 from ..model import const_value, dotted, kwarg, norm_text, walk_no_nested
+from ..pattern import Matcher
 from ..report import Context
 from .common import arg_or_kw, calls_in, callee, enclosing_ifs, is_none, method_calls
 
@@ -30,6 +31,35 @@ def _library_default(pattern: str, func: Optional[str], name: str):
                     if arg.arg == name and d is not None:
                         return const_value(d, None), path
     return None, None
+
+
+#: decimal places from which rounding a float64 is the identity: the smallest subnormal, 5e-324, has 324 of them
+EXACT_PLACES = 324
+
+
+def _places(fi, node) -> Optional[int]:
+    """Integer value of a precision argument: a literal, or a module level constant of the function's module."""
+    if node is None:
+        return None
+    if isinstance(node, ast.Name) and node.id in fi.module.assigns:
+        node = fi.module.assigns[node.id]
+    v = const_value(node, None)
+    return v if isinstance(v, int) and not isinstance(v, bool) else None
+
+
+#: characters of a dbf field name
+DBF_NAME_LENGTH = 10
+
+
+def _is_loop_polygon(ctx, fi, geom, poly_var) -> bool:
+    if isinstance(geom, ast.Name):
+        return geom.id == poly_var
+    if isinstance(geom, ast.Call) and (callee(ctx, fi, geom) or '').endswith('geojson.Polygon') and geom.args:
+        for pattern in ("$p.__geo_interface__['coordinates']", "shapely.geometry.mapping($p)['coordinates']"):
+            m = Matcher(ctx, fi)
+            if m.match(pattern, geom.args[0]) and m.name('p') == poly_var:
+                return True
+    return False
 
 
 def _polygon_iteration(ctx, fi):
@@ -139,7 +169,7 @@ def run(ctx: Context) -> None:
             ctx.need('R15.2', ok_feat, "each polygon becomes a geojson.Feature", fi)
             geom = kwarg(feat, 'geometry')
             props = kwarg(feat, 'properties')
-            ctx.check('R15.2', isinstance(geom, ast.Name) and geom.id == it['poly_var'], "the feature geometry is the loop's polygon", fi, feat,
+            ctx.check('R15.2', _is_loop_polygon(ctx, fi, geom, it['poly_var']), "the feature geometry is the loop's polygon (itself, or a geojson.Polygon of its own geo interface coordinates)", fi, feat,
                       construct=f"geometry={norm_text(geom) if geom is not None else '?'}")
             ok_li = ok_ix = False
             if isinstance(props, ast.Dict):
@@ -168,10 +198,13 @@ def run(ctx: Context) -> None:
             default, where = _library_default('/venv/lib/python3*/site-packages/geojson/geometry.py', None, 'DEFAULT_PRECISION')
             prec = kwarg(feat, 'precision')
             geom_src = flow.resolve(geom) if geom is not None else None
-            explicit = prec is not None or (isinstance(geom_src, ast.Call) and kwarg(geom_src, 'precision') is not None)
-            rounds = default is None or (isinstance(default, int) and default < 15)
-            ctx.check('R15.3', explicit or not rounds, "geojson geometries are built with an explicit coordinate precision (the library default rounds)", fi, feat,
-                      construct=f"geojson.Feature(...) without precision; library DEFAULT_PRECISION={default}",
+            if prec is None and isinstance(geom_src, ast.Call):
+                prec = kwarg(geom_src, 'precision')
+            pv = _places(fi, prec)
+            rounds = default is None or (isinstance(default, int) and default < EXACT_PLACES)
+            ctx.check('R15.3', (pv is not None and pv >= EXACT_PLACES) or not rounds,
+                      f"geojson geometries are built with precision >= {EXACT_PLACES} decimal places (round() leaves every float64 unchanged from there; the library default rounds)", fi, feat,
+                      construct=f"geojson geometry precision={norm_text(prec) if prec is not None else 'default'} (= {pv}); library DEFAULT_PRECISION={default}",
                       detail=f"default read from {where}" if where else 'library source not found: documented default 6 assumed')
         if fi is ws:
             ctx.need('R15.2', it['enumerated'] and it['index_var'] is not None, "write_shapefile enumerates the polygons", fi)
@@ -183,9 +216,22 @@ def run(ctx: Context) -> None:
                        and _guards(fi, recs[0]) == _guards(fi, shps[0]) and it['filter_ok'])
             ctx.check('R15.2', ok_pair, "each polygon produces exactly one record and one shape on the same writer, unconditionally", fi, loop,
                       construct=f"per polygon: {len(recs)} record(), {len(shps)} shape()")
+            fields = [const_value(c.args[0], None) for c in method_calls(fi, 'field') if c.args]
             if recs:
-                li = kwarg(recs[0], 'linear_index')
-                ix = kwarg(recs[0], 'index')
+                # a dbf field name holds ten characters: the writer truncates longer names when the field is declared,
+                # so a record keyword spelt in full matches no field and the value is dropped
+                lost = [k.arg for k in recs[0].keywords if k.arg is not None and (len(k.arg) > DBF_NAME_LENGTH or k.arg not in fields)]
+                ctx.check('R15.2', not lost and not any(k.arg is None for k in recs[0].keywords) and len(recs[0].args) + len(recs[0].keywords) == len(fields),
+                          f"every record value reaches a declared field: positional values in field order, keywords only for names of at most {DBF_NAME_LENGTH} characters", fi, recs[0],
+                          construct=f"fields {fields}; record({len(recs[0].args)} positional, keywords {[k.arg for k in recs[0].keywords]}); unmatched {lost or 'none'}")
+
+                def value_of(name):
+                    v = kwarg(recs[0], name)
+                    if v is None and name in fields and fields.index(name) < len(recs[0].args) and not any(isinstance(a, ast.Starred) for a in recs[0].args):
+                        v = recs[0].args[fields.index(name)]
+                    return v
+                li = value_of('linear_index')
+                ix = value_of('index')
                 ok_li = isinstance(li, ast.Name) and li.id == it['index_var']
                 ixv = ix
                 if isinstance(ixv, ast.Call) and (dotted(ixv.func) or '') == 'json.dumps' and ixv.args:
@@ -212,7 +258,6 @@ def run(ctx: Context) -> None:
                         narrow.append(norm_text(c))
             ctx.check('R15.2', not narrow, "attribute fields are not narrower than the library default, so a serialised index is never truncated", fi,
                       fi.node, construct=f"explicitly narrowed dbf fields (default width {default_size}): {narrow or 'none'}")
-            fields = [const_value(c.args[0], None) for c in method_calls(fi, 'field') if c.args]
             ctx.check('R15.2', {'linear_index', 'index'} <= set(fields), "the attribute table has linear_index and index fields", fi, fi.node,
                       construct=f"fields {fields}")
         if fi is mp:
@@ -247,11 +292,11 @@ def run(ctx: Context) -> None:
             rp = kwarg(s, 'rounding_precision')
             if rp is None and len(s.args) > 1:
                 rp = s.args[1]
-            rounds = default is None or (isinstance(default, int) and 0 <= default < 15)
-            rpv = const_value(rp, None) if rp is not None else None
-            explicit = rp is not None and isinstance(rpv, int) and (rpv < 0 or rpv >= 15)
-            ctx.check('R15.3', explicit or not rounds, "shapely.to_wkt is given rounding_precision=-1 (or >= 15): its default rounds coordinates", fi, s,
-                      construct=f"shapely.to_wkt(...) rounding_precision={norm_text(rp) if rp is not None else 'default'}; library default={default}",
+            rounds = default is None or (isinstance(default, int) and default < EXACT_PLACES)
+            rpv = _places(fi, rp)
+            ctx.check('R15.3', (rpv is not None and rpv >= EXACT_PLACES) or not rounds,
+                      f"shapely.to_wkt is given rounding_precision >= {EXACT_PLACES}: GEOS writes the shortest exact decimal form rounded to that many places, and -1 ('full') still means 16 places", fi, s,
+                      construct=f"shapely.to_wkt(...) rounding_precision={norm_text(rp) if rp is not None else 'default'} (= {rpv}); library default={default}",
                       detail=f"default read from {where}" if where else 'library source not found: documented default 6 assumed')
         else:
             extra = [k.arg for k in s.keywords]
@@ -277,6 +322,30 @@ def run(ctx: Context) -> None:
     ctx.check('R15.4', ok, "the streaming list wrapper yields the generator's items unchanged", it_fi or wg, (it_fi or wg).node,
               construct='_dumpable_iterator.__iter__ -> iter(self.gen)')
 
+    # an opened handle handed to write_shapefile is used as it is (typing.IO is an annotation, not a class real files derive from)
+    mo = p.functions.get(f"{GEO}._maybe_open")
+    ctx.need('R15.4', mo is not None and mo.params, "_maybe_open exists", wg)
+    handle = mo.params[0]
+    passthrough = [y for y in ast.walk(mo.node) if isinstance(y, ast.Yield) and isinstance(y.value, ast.Name) and y.value.id == handle]
+    ctx.need('R15.4', len(passthrough) == 1, "_maybe_open yields a given handle as it is on one path", mo)
+    from .common import path_conditions
+    conds = path_conditions(mo, passthrough[0])
+    ok = False
+    why = 'no test'
+    for test, pol in conds:
+        if not pol:
+            continue
+        if isinstance(test, ast.Call) and isinstance(test.func, ast.Name) and test.func.id == 'hasattr' and len(test.args) == 2 \
+                and isinstance(test.args[0], ast.Name) and test.args[0].id == handle and const_value(test.args[1], None) in ('write', 'read'):
+            ok, why = True, norm_text(test)
+        elif isinstance(test, ast.Call) and isinstance(test.func, ast.Name) and test.func.id == 'isinstance' and len(test.args) == 2:
+            classes = test.args[1].elts if isinstance(test.args[1], ast.Tuple) else [test.args[1]]
+            quals = [mo.module.resolve(dotted(c) or '?') for c in classes]
+            why = f"isinstance against {quals}"
+            ok = bool(quals) and all(q in ('io.IOBase', 'io.RawIOBase', 'io.BufferedIOBase', 'io.TextIOBase') for q in quals)
+    ctx.check('R15.4', ok, "the test that recognises an opened file is true for real file objects (a write/read attribute or an io base class; isinstance(x, typing.IO) never is)", mo, passthrough[0],
+              construct=f"handle test: {why}")
+
 
 # --------------------------------------------------------------------------- checker self-test
 from ..variants import V  # noqa: E402
@@ -286,14 +355,22 @@ VARIANTS = [
     V('C15', 'geojson-wind-off-by-one', _G, "            'index': dataset.ems.wind_index(i),\n        })", "            'index': dataset.ems.wind_index(i + 1),\n        })", 'R15.2'),
     V('C15', 'geojson-compacted', _G, "        for i, polygon in enumerate(dataset.ems.polygons)\n        if polygon is not None\n    ))", "        for i, polygon in enumerate(dataset.ems.polygons[dataset.ems.mask])\n        if polygon is not None\n    ))", 'R15.1'),
     V('C15', 'geojson-start-1', _G, "        for i, polygon in enumerate(dataset.ems.polygons)\n        if polygon is not None\n    ))", "        for i, polygon in enumerate(dataset.ems.polygons, 1)\n        if polygon is not None\n    ))", 'R15.1'),
-    V('C15', 'shapefile-filter-validity', _G, "            if polygon is None:\n                continue\n            writer.record(", "            if polygon is None or polygon.area == 0:\n                continue\n            writer.record(", 'R15.1'),
-    V('C15', 'shapefile-linear-index-shifted', _G, "                linear_index=i,\n", "                linear_index=i + 1,\n", 'R15.2'),
+    V('C15', 'shapefile-filter-validity', _G, "            if polygon is None:\n                continue\n", "            if polygon is None or polygon.area == 0:\n                continue\n", 'R15.1'),
+    V('C15', 'shapefile-linear-index-shifted', _G, "                i,\n                json.dumps(", "                i + 1,\n                json.dumps(", 'R15.2'),
+    V('C15', 'shapefile-record-long-keyword', _G, "                f'polygon{i}',\n                i,\n                json.dumps(dataset.ems.wind_index(i)),\n", "                name=f'polygon{i}',\n                linear_index=i,\n                index=json.dumps(dataset.ems.wind_index(i)),\n", 'R15.2'),
+    V('C15', 'shapefile-record-order-swapped', _G, "                f'polygon{i}',\n                i,\n", "                i,\n                f'polygon{i}',\n", 'R15.2'),
+    V('C15', 'geojson-other-polygon', _G, "            polygon.__geo_interface__['coordinates'], precision=FULL_PRECISION,", "            polygon.envelope.__geo_interface__['coordinates'], precision=FULL_PRECISION,", 'R15.2'),
     V('C15', 'shapefile-shape-conditional', _G, "            writer.shape(polygon.__geo_interface__)", "            if polygon.is_valid:\n                writer.shape(polygon.__geo_interface__)", 'R15.2'),
     V('C15', 'multipolygon-truthiness', _G, "        p for p in dataset.ems.polygons\n        if p is not None", "        p for p in dataset.ems.polygons\n        if p", 'R15.1'),
     V('C15', 'wkb-of-convex-hull', _G, "        f.write(shapely.to_wkb(_to_multipolygon(dataset)))", "        f.write(shapely.to_wkb(_to_multipolygon(dataset).convex_hull))", 'R15.4'),
-    V('C15', 'wkt-more-rounding', _G, "        f.write(shapely.to_wkt(_to_multipolygon(dataset)))", "        f.write(shapely.to_wkt(_to_multipolygon(dataset), rounding_precision=3))", 'R15.3'),
+    V('C15', 'wkt-more-rounding', _G, "            _to_multipolygon(dataset), rounding_precision=FULL_PRECISION))", "            _to_multipolygon(dataset), rounding_precision=3))", 'R15.3'),
+    V('C15', 'wkt-default-rounding', _G, "            _to_multipolygon(dataset), rounding_precision=FULL_PRECISION))", "            _to_multipolygon(dataset)))", 'R15.3'),
+    V('C15', 'wkt-full-is-sixteen-places', _G, "            _to_multipolygon(dataset), rounding_precision=FULL_PRECISION))", "            _to_multipolygon(dataset), rounding_precision=-1))", 'R15.3'),
+    V('C15', 'geojson-default-rounding', _G, "            polygon.__geo_interface__['coordinates'], precision=FULL_PRECISION,\n", "            polygon.__geo_interface__['coordinates'],\n", 'R15.3'),
+    V('C15', 'precision-constant-lowered', _G, "FULL_PRECISION = 324", "FULL_PRECISION = 15", 'R15.3'),
+    V('C15', 'maybe-open-typing-io', _G, "    if hasattr(path_or_file, 'write'):", "    if isinstance(path_or_file, IO):", 'R15.4'),
     V('C15', 'dbf-fields-narrowed', _G, "        writer.field('index', 'C')", "        writer.field('index', 'C', size=16)", 'R15.2'),
     V('C15', 'cli-opens-undecoded', 'src/emsarray/cli/commands/export_geometry.py', "        dataset = emsarray.open_dataset(options.input_path)", "        dataset = emsarray.open_dataset(options.input_path, mask_and_scale=False)", 'R15.5'),
-    # benign: repairing the known finding must make the check silent
-    V('C15', 'benign-wkt-full-precision', _G, "        f.write(shapely.to_wkt(_to_multipolygon(dataset)))", "        f.write(shapely.to_wkt(_to_multipolygon(dataset), rounding_precision=-1))", None),
+    # benign: the same precision spelt as a literal
+    V('C15', 'benign-wkt-literal-precision', _G, "            _to_multipolygon(dataset), rounding_precision=FULL_PRECISION))", "            _to_multipolygon(dataset), rounding_precision=400))", None),
 ]
